@@ -165,7 +165,26 @@ func c11BaseDict() []c11Entry {
 	add("core", "*", "access", "basic", "none")
 	add("url", "*", "access", "basic", "none")
 	add("foo", "*", "access", "basic", "none", "bar", "evil", "git")
+	// --- wrapped keys: a key of one of the forms .lfsconfig may legitimately set (lfs.<x>.access, remote.<name>.lfsurl, and the
+	// filter's "<anything>.<x>.access") whose middle part is itself the text of a key that configures something dangerous.  A reader
+	// that searches the configuration by an unanchored or prefix/suffix pattern would take the wrapper for the dangerous key.
+	for _, inner := range c11WrappedInner {
+		add("remote", inner, "lfsurl", "/bin/false", c11Good+"grlfs")
+		add("lfs", inner, "access", "/bin/false", "none")
+		if i := strings.IndexByte(inner, '.'); i > 0 {
+			// the inner key's own section with ".access" appended: lfs.customtransfer.evil.path.access, credential.helper.access, ...
+			add(inner[:i], inner[i+1:], "access", "/bin/false", "none")
+		}
+	}
 	return d
+}
+
+// c11WrappedInner lists the dangerous keys that are embedded as the middle part of an allowed key form.
+var c11WrappedInner = []string{
+	"lfs.customtransfer.evil.path", "lfs.customtransfer.evil.args", "lfs.extension.evil.clean", "lfs.extension.evil.smudge",
+	"lfs.standalonetransferagent", "lfs.url", "lfs.storage",
+	"credential.helper", "core.askpass", "core.sshcommand", "core.hookspath", "http.proxy", "http.extraheader", "http.sslverify",
+	"url.https://evil.example/.insteadof", "filter.lfs.clean", "filter.lfs.process", "remote.origin.url", "remote.origin.pushurl", "ssh.variant",
 }
 
 // c11Key is one concrete key of the enumeration.
